@@ -121,8 +121,11 @@ Fixpoint chk_events (total : nat) (s : state) (ds : list draw) (evs : list reven
              && (last (map pid (dead s')) (-1)%Z =? rem)%Z
              && (last (idxs s') 0 =? idx)%nat
              && (pid (nth idx (live s') (mkpt (-1) 0 0 false false false false)) =? new)%Z
-             && match olv with None => true | Some lv => lp_eqb (view (live s')) lv end
-             && inv_b s'
+             (* full live set and the (quadratic) boolean invariant at the sampled iterations;
+                sortedness, size and counts at every iteration                                    *)
+             && match olv with None => true | Some lv => lp_eqb (view (live s')) lv && inv_b s' end
+             && sortedb (map key (live s')) && (length (live s') =? nlive s')%nat
+             && (length (dead s') =? iter s')%nat && (length (idxs s') =? iter s')%nat
           then chk_events total s' ds' r else None
       end
   end.
